@@ -6,7 +6,7 @@ From Coq Require Import List NArith ZArith Bool String Lia.
 From PMS Require Import Base.PyStr Base.PyInt Base.Exn Model.Codec Model.Rules Model.TableTypes
   Gen.Tables Model.Validate Model.Hex Model.Ota Model.Oracles Model.Gateway Spec.SerialApi
   Proofs.PyStrFacts Proofs.PyIntFacts Proofs.CodecProofs Proofs.ValidateProofs Proofs.GwLemmas Proofs.GwInv
-  Proofs.SleepDefs.
+  Proofs.SleepDefs Proofs.SleepFlush.
 Import ListNotations.
 Open Scope string_scope.
 Open Scope list_scope.
@@ -19,20 +19,31 @@ Inductive cause :=
 | CReport (n c vt : Z)        (* a set message (a report) from node n, child c, value type vt *)
 | CDesire (n c vt : Z).       (* the controller call set_child_value n c vt *)
 
+(* desired values: without the controller call for (k, c, vt) a desired value can only persist
+   or be cleared; without a report for (k, c, vt) either it persists *)
+Definition des_step (cz : cause) (k : Z) (nd nd' : node) : Prop :=
+  forall c vt, cz <> CDesire k c vt ->
+    (desired nd' c vt = desired nd c vt \/ desired nd' c vt = None) /\
+    (cz <> CReport k c vt -> desired nd' c vt = desired nd c vt).
+
 Definition node_step (cz : cause) (k : Z) (nd nd' : node) : Prop :=
   n_id nd' = n_id nd /\
   (sleeping nd = true -> sleeping nd' = true) /\
   (Forall (qentry k) (n_queue nd) -> Forall (qentry k) (n_queue nd')) /\
   (cz <> CWake k -> sleeping nd' = sleeping nd /\ exists ext, n_queue nd' = n_queue nd ++ ext) /\
-  (forall c vt, cz <> CReport k c vt -> cz <> CDesire k c vt -> desired nd' c vt = desired nd c vt) /\
+  des_step cz k nd nd' /\
   (forall c ch, zassoc c (n_children nd) = Some ch ->
      exists ch', zassoc c (n_children nd') = Some ch' /\ c_id ch' = c_id ch /\
                  forall vt, zhas vt (c_values ch) = true -> zhas vt (c_values ch') = true).
 
+Lemma des_step_same cz k nd nd' : (forall c vt, desired nd' c vt = desired nd c vt) -> des_step cz k nd nd'.
+Proof. intros H c vt _. split; [left; apply H|intros _; apply H]. Qed.
+
 Lemma node_step_refl cz k nd : node_step cz k nd nd.
 Proof.
-  repeat split; auto.
-  - exists []. rewrite app_nil_r. reflexivity.
+  split; [reflexivity|]. split; [auto|]. split; [auto|]. split; [|split].
+  - intros _. split; [reflexivity|]. exists []. rewrite app_nil_r. reflexivity.
+  - apply des_step_same. reflexivity.
   - intros c ch H. exists ch. auto.
 Qed.
 
@@ -42,7 +53,9 @@ Proof.
   split; [congruence|]. split; [auto|]. split; [auto|]. split; [|split].
   - intro N. destruct (W1 N) as [E1 [x1 X1]]. destruct (W2 N) as [E2 [x2 X2]].
     split; [congruence|]. exists (x1 ++ x2). rewrite X2, X1, app_assoc. reflexivity.
-  - intros ch vt N1 N2. rewrite D2, D1; auto.
+  - intros ch vt N. destruct (D1 ch vt N) as [A1 B1]. destruct (D2 ch vt N) as [A2 B2]. split.
+    + destruct A2 as [A2|A2]; [rewrite A2; exact A1|right; exact A2].
+    + intro N2. rewrite B2, B1; auto.
   - intros ch0 ch H. destruct (C1 _ _ H) as (ch1 & H1 & E1 & V1).
     destruct (C2 _ _ H1) as (ch2 & H2 & E2 & V2). exists ch2. split; [exact H2|]. split; [congruence|auto].
 Qed.
@@ -52,7 +65,7 @@ Proof.
   intros (I1 & S1 & Q1 & W1 & D1 & C1).
   split; [exact I1|]. split; [exact S1|]. split; [exact Q1|]. split; [|split; [|exact C1]].
   - intros _. apply W1. discriminate.
-  - intros c vt _ _. apply D1; discriminate.
+  - apply des_step_same. intros c vt. apply D1; discriminate.
 Qed.
 
 (* a node that keeps desired state, children and queue *)
@@ -60,9 +73,10 @@ Lemma node_step_same cz k nd nd' :
   n_id nd' = n_id nd -> n_new nd' = n_new nd -> n_queue nd' = n_queue nd -> n_children nd' = n_children nd ->
   node_step cz k nd nd'.
 Proof.
-  intros E1 E2 E3 E4. unfold node_step, sleeping, desired. rewrite E1, E2, E3, E4.
-  repeat split; auto.
-  - exists []. rewrite app_nil_r. reflexivity.
+  intros E1 E2 E3 E4. unfold node_step, sleeping. rewrite E1, E2, E3, E4.
+  split; [reflexivity|]. split; [auto|]. split; [auto|]. split; [|split].
+  - intros _. split; [reflexivity|]. exists []. rewrite app_nil_r. reflexivity.
+  - apply des_step_same. intros c vt. unfold desired. rewrite E2. reflexivity.
   - intros c ch H. exists ch. auto.
 Qed.
 
@@ -95,3 +109,759 @@ Proof.
   - intros k nd H. destruct (A _ _ H) as (nd' & H' & S). exists nd'. split; [exact H'|apply node_step_mono; exact S].
   - intros k nd' H1 H2. apply node_step_mono. eauto.
 Qed.
+
+(* ---------------------------------------------------------------- what may be emitted *)
+(* a string that may leave the gateway (be handed to add_job_send / returned as the reply) in a
+   transition that started in state g0 with cause cz: the encoding of a message that is of
+   stream type, or addressed to the node whose wake-up announcement is being processed, or
+   addressed to a node that was unknown or not sleeping in g0 *)
+Definition allowed (g0 : gw) (cz : cause) (s : pstr) : Prop :=
+  exists m, s = encode m /\
+    (m_type m = vt_stream (tab g0) \/ cz = CWake (m_node m) \/
+     match get_node g0 (m_node m) with Some nd => sleeping nd = false | None => True end).
+
+Definition ev_allowed (g0 : gw) (cz : cause) (e : event) : Prop :=
+  match e with ESend s => allowed g0 cz s | _ => True end.
+Definition job_allowed (g0 : gw) (cz : cause) (j : job) : Prop :=
+  match j with JSend s => allowed g0 cz s | JLogic _ => False end.
+
+Record trans (cz : cause) (g g' : gw) : Prop := mkTrans {
+  t_cf : g_cf g' = g_cf g;
+  t_log : exists d, g_log g' = g_log g ++ d /\ Forall (ev_allowed g cz) d;
+  t_jobs : exists j, g_jobs g' = g_jobs g ++ j /\ Forall (job_allowed g cz) j /\
+                     (cf_async (g_cf g) = true -> j = []);
+  t_nodes : nodes_step cz g g' }.
+
+Lemma allowed_mono g cz s : allowed g CNone s -> allowed g cz s.
+Proof. intros (m & E & [H|[H|H]]); exists m; (split; [exact E|]); [left; exact H|discriminate H|right; right; exact H]. Qed.
+
+Lemma allowed_back cz g g' s : g_cf g' = g_cf g -> nodes_step cz g g' -> allowed g' cz s -> allowed g cz s.
+Proof.
+  intros C [A N] (m & E & H). exists m. split; [exact E|].
+  destruct H as [H|[H|H]]; [left; unfold tab in *; rewrite <- C; exact H|right; left; exact H|].
+  destruct (get_node g (m_node m)) as [nd|] eqn:G; [|right; right; exact I].
+  destruct (A _ _ G) as (nd' & G' & (_ & S & _)). rewrite G' in H.
+  right. right. destruct (sleeping nd); [rewrite S in H by reflexivity; discriminate|reflexivity].
+Qed.
+
+Lemma Forall_impl' {A} (P Q : A -> Prop) l : (forall a, P a -> Q a) -> Forall P l -> Forall Q l.
+Proof. intros H F. eapply Forall_impl; [exact H|exact F]. Qed.
+
+Lemma trans_refl cz g : trans cz g g.
+Proof.
+  constructor; [reflexivity| | |apply nodes_step_eq; reflexivity].
+  - exists []. rewrite app_nil_r. split; [reflexivity|constructor].
+  - exists []. rewrite app_nil_r. split; [reflexivity|]. split; [constructor|reflexivity].
+Qed.
+
+Lemma trans_trans cz a b c : trans cz a b -> trans cz b c -> trans cz a c.
+Proof.
+  intros [C1 (d1 & L1 & F1) (j1 & J1 & G1 & A1) N1] [C2 (d2 & L2 & F2) (j2 & J2 & G2 & A2) N2].
+  constructor; [congruence| | |eapply nodes_step_trans; eassumption].
+  - exists (d1 ++ d2). rewrite L2, L1, app_assoc. split; [reflexivity|].
+    apply Forall_app. split; [exact F1|].
+    eapply Forall_impl'; [|exact F2]. intros [s|m t|e]; simpl; auto. apply allowed_back; assumption.
+  - exists (j1 ++ j2). rewrite J2, J1, app_assoc. split; [reflexivity|]. split.
+    + apply Forall_app. split; [exact G1|].
+      eapply Forall_impl'; [|exact G2]. intros [l|s]; simpl; auto. apply allowed_back; assumption.
+    + intro X. rewrite A1 by exact X. rewrite A2 by (rewrite C1; exact X). reflexivity.
+Qed.
+
+Lemma trans_mono cz g g' : trans CNone g g' -> trans cz g g'.
+Proof.
+  intros [C (d & L & F) (j & J & G & A) N].
+  constructor; [exact C| | |apply nodes_step_mono; exact N].
+  - exists d. split; [exact L|]. eapply Forall_impl'; [|exact F]. intros [s|m t|e]; simpl; auto. apply allowed_mono.
+  - exists j. split; [exact J|]. split; [|exact A].
+    eapply Forall_impl'; [|exact G]. intros [l|s]; simpl; auto. apply allowed_mono.
+Qed.
+
+(* a change of the fields that carry no node / output information *)
+Lemma trans_fields cz g g' :
+  g_cf g' = g_cf g -> g_sensors g' = g_sensors g -> g_jobs g' = g_jobs g -> g_log g' = g_log g -> trans cz g g'.
+Proof.
+  intros C S J L. constructor; [exact C| | |apply nodes_step_eq; exact S].
+  - exists []. rewrite app_nil_r. split; [exact L|constructor].
+  - exists []. rewrite app_nil_r. split; [exact J|]. split; [constructor|reflexivity].
+Qed.
+
+Lemma trans_emit_other cz g e : (match e with ESend _ => False | _ => True end) -> trans cz g (emit g e).
+Proof.
+  intro H. constructor; [reflexivity| | |apply nodes_step_eq; reflexivity].
+  - exists [e]. split; [reflexivity|]. constructor; [|constructor]. destruct e; simpl; auto. contradiction.
+  - exists []. rewrite app_nil_r. split; [reflexivity|]. split; [constructor|reflexivity].
+Qed.
+
+Lemma trans_send cz g s : (s <> [] -> allowed g cz s) -> trans cz g (send g s).
+Proof.
+  intro H. unfold send. destruct s as [|c s]; [apply trans_refl|].
+  constructor; [reflexivity| | |apply nodes_step_eq; reflexivity].
+  - exists [ESend (c :: s)]. split; [reflexivity|]. constructor; [|constructor]. simpl. apply H. discriminate.
+  - exists []. rewrite app_nil_r. split; [reflexivity|]. split; [constructor|reflexivity].
+Qed.
+
+Lemma trans_add_job_send cz g s : allowed g cz s -> trans cz g (add_job_send g s).
+Proof.
+  intro H. unfold add_job_send. destruct (cf_async (g_cf g)) eqn:A; [apply trans_send; intros _; exact H|].
+  constructor; [reflexivity| | |apply nodes_step_eq; reflexivity].
+  - exists []. rewrite app_nil_r. split; [reflexivity|constructor].
+  - exists [JSend s]. split; [reflexivity|]. split; [constructor; [exact H|constructor]|congruence].
+Qed.
+
+Lemma trans_alert cz g m : trans cz g (alert g m).
+Proof.
+  unfold alert. destruct (cf_callback (g_cf g)).
+  - eapply trans_trans; [apply (trans_emit_other cz g (ECallback m (proj (g_sensors g)))); exact I|].
+    simpl. destruct (cf_persist (g_cf g)); [apply trans_fields; reflexivity|apply trans_refl].
+  - destruct (cf_persist (g_cf g)); [apply trans_fields; reflexivity|apply trans_refl].
+Qed.
+
+(* replacing the node stored under key k *)
+Lemma trans_put_node cz g k nd nd' :
+  get_node g k = Some nd -> n_id nd' = k -> node_step cz k nd nd' -> trans cz g (put_node g nd').
+Proof.
+  intros G E S. constructor; [reflexivity| | |].
+  - exists []. rewrite app_nil_r. split; [reflexivity|constructor].
+  - exists []. rewrite app_nil_r. split; [reflexivity|]. split; [constructor|reflexivity].
+  - unfold nodes_step, get_node, put_node. simpl. rewrite E. split.
+    + intros k0 nd0 H. rewrite zassoc_zset. destruct (Z.eqb_spec k0 k) as [->|N].
+      * exists nd'. split; [reflexivity|]. unfold get_node in G. congruence.
+      * exists nd0. split; [exact H|apply node_step_refl].
+    + intros k0 nd0 H1 H2. rewrite zassoc_zset in H2. destruct (Z.eqb_spec k0 k) as [->|N].
+      * unfold get_node in G. congruence.
+      * congruence.
+Qed.
+
+Lemma trans_add_sensor cz g sid : trans cz g (add_sensor g sid).
+Proof.
+  unfold add_sensor. destruct (zhas sid (g_sensors g)) eqn:Z; [apply trans_refl|].
+  constructor; [reflexivity| | |].
+  - exists []. rewrite app_nil_r. split; [reflexivity|constructor].
+  - exists []. rewrite app_nil_r. split; [reflexivity|]. split; [constructor|reflexivity].
+  - unfold nodes_step, get_node. simpl. split.
+    + intros k nd H. rewrite zassoc_app, H. exists nd. split; [reflexivity|apply node_step_refl].
+    + intros k nd' H1 H2. rewrite zassoc_app, H1 in H2. simpl in H2.
+      destruct (Z.eqb_spec k sid) as [->|N]; [|discriminate]. inversion H2. apply node_step_refl.
+Qed.
+
+(* ---------------------------------------------------------------- node-level steps *)
+Lemma node_step_children cz k nd nd' :
+  n_id nd' = n_id nd -> n_new nd' = n_new nd -> n_queue nd' = n_queue nd ->
+  (forall c ch, zassoc c (n_children nd) = Some ch ->
+     exists ch', zassoc c (n_children nd') = Some ch' /\ c_id ch' = c_id ch /\
+                 forall vt, zhas vt (c_values ch) = true -> zhas vt (c_values ch') = true) ->
+  node_step cz k nd nd'.
+Proof.
+  intros E1 E2 E3 C. unfold node_step, sleeping. rewrite E1, E2, E3.
+  split; [reflexivity|]. split; [auto|]. split; [auto|]. split; [|split; [|exact C]].
+  - intros _. split; [reflexivity|]. exists []. rewrite app_nil_r. reflexivity.
+  - apply des_step_same. intros c vt. unfold desired. rewrite E2. reflexivity.
+Qed.
+
+(* writing one entry of an existing desired-state slot *)
+Lemma with_new_slot_step cz k nd c vt x dv :
+  zassoc c (n_new nd) = Some dv -> ((cz = CReport k c vt /\ x = None) \/ cz = CDesire k c vt) ->
+  node_step cz k nd (with_new nd (zset c (zset vt x dv) (n_new nd))).
+Proof.
+  intros D CZ. unfold node_step. cbn [with_new n_id n_queue n_children].
+  assert (SL : sleeping nd = true).
+  { unfold sleeping. destruct (n_new nd); [discriminate D|reflexivity]. }
+  assert (SL' : sleeping (with_new nd (zset c (zset vt x dv) (n_new nd))) = true).
+  { rewrite sleeping_with_new. pose proof (zset_not_nil c (zset vt x dv) (n_new nd)) as NN.
+    destruct (zset c (zset vt x dv) (n_new nd)); [contradiction|reflexivity]. }
+  split; [reflexivity|]. split; [auto|]. split; [auto|]. split; [|split].
+  - intros _. split; [congruence|]. exists []. rewrite app_nil_r. reflexivity.
+  - intros c' vt' N2. unfold desired. cbn [with_new n_new]. rewrite zassoc_zset.
+    destruct (Z.eqb_spec c' c) as [->|NC]; [|split; [left; reflexivity|reflexivity]].
+    rewrite D, zassoc_zset. destruct (Z.eqb_spec vt' vt) as [->|NV]; [|split; [left; reflexivity|reflexivity]].
+    destruct CZ as [[-> ->] | ->]; [|contradiction N2; reflexivity].
+    (* a report: the entry is cleared *)
+    split; [right; reflexivity|intro N1; contradiction N1; reflexivity].
+  - intros c0 ch H. exists ch. auto.
+Qed.
+
+Lemma update_child_value_step k nd c vt p :
+  node_step (CReport k c vt) k nd (update_child_value nd c vt p).
+Proof.
+  unfold update_child_value. destruct (zassoc c (n_children nd)) as [ch|] eqn:CH; [|apply node_step_refl].
+  set (ch' := mkChild (c_id ch) (c_type ch) (c_desc ch) (zset vt (PS p) (c_values ch))).
+  assert (S1 : node_step (CReport k c vt) k nd (with_children nd (zset c ch' (n_children nd)))).
+  { apply node_step_children; try reflexivity.
+    intros c0 ch0 H. cbn [with_children n_children]. rewrite zassoc_zset.
+    destruct (Z.eqb_spec c0 c) as [->|N]; [|exists ch0; auto].
+    exists ch'. split; [reflexivity|]. rewrite CH in H. inversion H; subst ch0. split; [reflexivity|].
+    intros vt0 Z. unfold ch'. cbn [c_values]. rewrite zhas_zset, Z. apply orb_true_r. }
+  destruct (zassoc c (n_new nd)) as [dv|] eqn:D; [|exact S1].
+  eapply node_step_trans; [exact S1|].
+  apply (with_new_slot_step _ k (with_children nd (zset c ch' (n_children nd))) c vt None dv); [exact D|left; split; reflexivity].
+Qed.
+
+
+(* ---------------------------------------------------------------- the handlers *)
+Section Handlers.
+  Variable orc : oracles.
+  Variable clock : Z.
+
+  Lemma node_id_of g k nd : Inv orc g -> get_node g k = Some nd -> n_id nd = k.
+  Proof. intros I G. destruct (get_node_ok orc g k nd I G) as [E _]. exact E. Qed.
+
+  (* ---- route ---- *)
+  Lemma route_trans g m : Inv orc g ->
+    trans CNone g (fst (route g m)) /\
+    (forall m', snd (route g m) = Some m' -> m' = m /\ fst (route g m) = g /\ allowed g CNone (encode m)).
+  Proof.
+    intro I. unfold route.
+    destruct (m_type m =? vt_presentation (tab g)); [split; [apply trans_refl|discriminate]|].
+    destruct (get_node g (m_node m)) as [nd|] eqn:G.
+    - destruct (m_type m =? vt_stream (tab g)) eqn:ST; cbn [orb].
+      + split; [apply trans_refl|]. intros m' H; simpl in H; injection H as <-. split; [reflexivity|]. split; [reflexivity|].
+        exists m. split; [reflexivity|]. left. apply Z.eqb_eq. exact ST.
+      + destruct (sleeping nd) eqn:SL; cbn [negb].
+        * split; [|discriminate]. cbn [fst].
+          apply (trans_put_node CNone g (m_node m) nd); [exact G|exact (node_id_of g _ _ I G)|].
+          unfold node_step. cbn [n_id n_queue n_children]. unfold sleeping. cbn [n_new].
+          split; [reflexivity|]. split; [auto|]. split; [|split; [|split; [apply des_step_same; reflexivity|]]].
+          -- intro F. apply Forall_app. split; [exact F|]. constructor; [|constructor].
+             exists m. split; reflexivity.
+          -- intros _. split; [reflexivity|]. eexists. reflexivity.
+          -- intros c ch H. exists ch. auto.
+        * split; [apply trans_refl|]. intros m' H; simpl in H; injection H as <-. split; [reflexivity|]. split; [reflexivity|].
+          exists m. split; [reflexivity|]. right. right. rewrite G. exact SL.
+    - split; [apply trans_refl|]. intros m' H; simpl in H; injection H as <-. split; [reflexivity|]. split; [reflexivity|].
+      exists m. split; [reflexivity|]. right. right. rewrite G. exact Logic.I.
+  Qed.
+  Lemma route_cf g m : g_cf (fst (route g m)) = g_cf g.
+  Proof.
+    unfold route. destruct (m_type m =? vt_presentation (tab g)); [reflexivity|].
+    destruct (get_node g (m_node m)); [|reflexivity].
+    destruct ((m_type m =? vt_stream (tab g)) || negb (sleeping n)); reflexivity.
+  Qed.
+
+  (* ---- is_sensor ---- *)
+  Lemma is_sensor_trans g sid cid g1 b : Inv orc g -> is_sensor g sid cid = Ok (g1, b) -> trans CNone g g1.
+  Proof.
+    intros I. unfold is_sensor.
+    match goal with |- context [negb ?r && _] => generalize r end. intro ret.
+    destruct (negb ret && cf_ge20 (g_cf g)); [|intro H; inversion H; apply trans_refl].
+    destruct (sassoc (s2p "I_PRESENTATION") (vt_internal_members (tab g))) as [ip|]; [|discriminate].
+    set (m := mkMsg sid system_child_id (vt_internal (tab g)) 0 ip []).
+    destruct (route_trans g m I) as [T A]. pose proof (route_cf g m) as C.
+    destruct (route g m) as [g0 r]. cbn [fst snd] in *.
+    intro H. inversion H; subst g1 b; clear H.
+    destruct r as [m'|]; [|exact T].
+    destruct (A m' eq_refl) as (-> & -> & AL).
+    apply trans_add_job_send. exact AL.
+  Qed.
+
+  (* result of a handler: whenever it returns, the state moved by a `trans` *)
+  Definition htrans (cz : cause) (g : gw) (r : res (gw * option msg)) : Prop :=
+    forall g' rep, r = Ok (g', rep) -> trans cz g g'.
+
+  Lemma htrans_ret cz g g' rep : trans cz g g' -> htrans cz g (Ok (g', rep)).
+  Proof. intros T g2 rep2 H. inversion H; subst. exact T. Qed.
+  Lemma htrans_mono cz g r : htrans CNone g r -> htrans cz g r.
+  Proof. intros H g' rep E. apply trans_mono. eapply H. exact E. Qed.
+
+  Lemma trans_put_same cz g k nd nd' : Inv orc g -> get_node g k = Some nd ->
+    n_id nd' = n_id nd -> n_new nd' = n_new nd -> n_queue nd' = n_queue nd -> n_children nd' = n_children nd ->
+    trans cz g (put_node g nd').
+  Proof.
+    intros I G E1 E2 E3 E4. apply (trans_put_node cz g k nd); [exact G| |apply node_step_same; assumption].
+    rewrite E1. exact (node_id_of g k nd I G).
+  Qed.
+
+  Lemma handle_presentation_trans g m : facts g -> Inv orc g -> htrans CNone g (handle_presentation orc g m).
+  Proof.
+    intros F I. unfold handle_presentation.
+    destruct (m_child m =? system_child_id).
+    - destruct (get_node_add_sensor g (m_node m)) as [nd G]. rewrite G. apply htrans_ret.
+      eapply trans_trans; [apply trans_add_sensor|]. eapply trans_trans; [|apply trans_alert].
+      eapply trans_put_same; [apply Inv_add_sensor; exact I|exact G|reflexivity..].
+    - destruct (is_sensor_ok orc g (m_node m) None F I) as (g1 & b & E & I1 & C1 & K). rewrite E. cbn [bind].
+      pose proof (is_sensor_trans _ _ _ _ _ I E) as T1.
+      destruct b; cbn [negb]; [|apply htrans_ret; exact T1].
+      destruct (K eq_refl) as [-> [nd [G _]]]. rewrite G.
+      destruct (zhas (m_child m) (n_children nd)) eqn:ZH; [apply htrans_ret; apply trans_refl|].
+      apply htrans_ret. eapply trans_trans; [|apply trans_alert].
+      apply (trans_put_node _ g (m_node m) nd); [exact G|exact (node_id_of g _ _ I G)|].
+      apply node_step_children; try reflexivity.
+      intros c ch H. cbn [with_children n_children]. rewrite zassoc_app, H. exists ch. auto.
+  Qed.
+
+  Lemma handle_set_trans g m : facts g -> Inv orc g ->
+    htrans (CReport (m_node m) (m_child m) (m_sub m)) g (handle_set g m).
+  Proof.
+    intros F I. unfold handle_set.
+    destruct (is_sensor_ok orc g (m_node m) (Some (m_child m)) F I) as (g1 & b & E & I1 & C1 & K). rewrite E. cbn [bind].
+    pose proof (is_sensor_trans _ _ _ _ _ I E) as T1.
+    destruct b; cbn [negb]; [|apply htrans_ret; apply trans_mono; exact T1].
+    destruct (K eq_refl) as [-> [nd [G _]]]. rewrite G.
+    assert (T : trans (CReport (m_node m) (m_child m) (m_sub m)) g
+                  (alert (put_node g (update_child_value nd (m_child m) (m_sub m) (m_payload m))) m)).
+    { eapply trans_trans; [|apply trans_alert].
+      apply (trans_put_node _ g (m_node m) nd); [exact G| |apply update_child_value_step].
+      destruct (update_child_value_step (m_node m) nd (m_child m) (m_sub m) (m_payload m)) as [E1 _].
+      rewrite E1. exact (node_id_of g _ _ I G). }
+    destruct (n_reboot (update_child_value nd (m_child m) (m_sub m) (m_payload m))); [|apply htrans_ret; exact T].
+    destruct (internal_member g "I_REBOOT"); cbn [bind]; [|discriminate].
+    destruct (copy m _); cbn [bind]; [|discriminate]. apply htrans_ret. exact T.
+  Qed.
+
+  Lemma handle_req_trans g m : facts g -> Inv orc g -> htrans CNone g (handle_req g m).
+  Proof.
+    intros F I. unfold handle_req.
+    destruct (is_sensor_ok orc g (m_node m) (Some (m_child m)) F I) as (g1 & b & E & I1 & C1 & K). rewrite E. cbn [bind].
+    pose proof (is_sensor_trans _ _ _ _ _ I E) as T1.
+    destruct b; cbn [negb]; [|apply htrans_ret; exact T1].
+    destruct (K eq_refl) as [-> [nd [G _]]]. rewrite G.
+    destruct (get_desired_value nd (m_child m) (m_sub m)); [|apply htrans_ret; apply trans_refl].
+    destruct (copy m _); cbn [bind]; [|discriminate]. apply htrans_ret. apply trans_refl.
+  Qed.
+
+  Lemma handle_id_request_trans g m : htrans CNone g (handle_id_request g m).
+  Proof.
+    unfold handle_id_request. destruct (next_id g) as [nid|]; [|apply htrans_ret; apply trans_refl].
+    destruct (negb (zhas nid (g_sensors (add_sensor g nid)))); [apply htrans_ret; apply trans_add_sensor|].
+    destruct (internal_member g "I_ID_RESPONSE"); cbn [bind]; [|discriminate].
+    destruct (copy m _); cbn [bind]; [|discriminate]. apply htrans_ret.
+    eapply trans_trans; [apply trans_add_sensor|apply trans_alert].
+  Qed.
+
+  Lemma node_attr_trans f g m : facts g -> Inv orc g ->
+    (forall nd p, n_id (f nd p) = n_id nd /\ n_new (f nd p) = n_new nd /\ n_queue (f nd p) = n_queue nd /\
+                  n_children (f nd p) = n_children nd) ->
+    htrans CNone g (node_attr_handler f g m).
+  Proof.
+    intros F I Hf. unfold node_attr_handler.
+    destruct (is_sensor_ok orc g (m_node m) None F I) as (g1 & b & E & I1 & C1 & K). rewrite E. cbn [bind].
+    pose proof (is_sensor_trans _ _ _ _ _ I E) as T1.
+    destruct b; cbn [negb]; [|apply htrans_ret; exact T1].
+    destruct (K eq_refl) as [-> [nd [G _]]]. rewrite G. apply htrans_ret.
+    destruct (Hf nd (m_payload m)) as (H1 & H2 & H3 & H4).
+    eapply trans_trans; [|apply trans_alert]. eapply trans_put_same; eassumption.
+  Qed.
+
+  Lemma respond_fw_config_trans g m : htrans CNone g (respond_fw_config g m).
+  Proof.
+    unfold respond_fw_config. destruct (fw_hex_to_int (m_payload m) 5); [|apply htrans_ret; apply trans_refl].
+    destruct (ota_get_fw (g_ota g) (m_node m) true None) as [o' r].
+    assert (T : trans CNone g (set_ota g o')) by (apply trans_fields; reflexivity).
+    destruct r as [[[t v] f]|]; [|apply htrans_ret; exact T].
+    destruct (stream_member g _); cbn [bind]; [|discriminate].
+    destruct (copy m _); cbn [bind]; [|discriminate].
+    destruct (fw_config_payload t v f); cbn [bind]; [|discriminate]. apply htrans_ret. exact T.
+  Qed.
+
+  Lemma respond_fw_trans g m : htrans CNone g (respond_fw g m).
+  Proof.
+    unfold respond_fw. destruct (fw_hex_to_int (m_payload m) 3) as [ws|e]; [|apply htrans_ret; apply trans_refl].
+    destruct ws as [|rt [|rv [|rb [|x y]]]]; try (apply htrans_ret; apply trans_refl).
+    destruct (ota_get_fw (g_ota g) (m_node m) false (Some (rt, rv))) as [o' r].
+    assert (T : trans CNone g (set_ota g o')) by (apply trans_fields; reflexivity).
+    destruct r as [[[t v] f]|]; [|apply htrans_ret; exact T].
+    destruct (stream_member g _); cbn [bind]; [|discriminate].
+    destruct (copy m _); cbn [bind]; [|discriminate].
+    destruct (fw_response_payload t v rb f); cbn [bind]; [|discriminate]. apply htrans_ret. exact T.
+  Qed.
+
+  (* ---- the wake-up flush ---- *)
+  Lemma allowed_ext g g' cz s : g_sensors g' = g_sensors g -> g_cf g' = g_cf g -> allowed g cz s -> allowed g' cz s.
+  Proof. intros S C (m & E & H). exists m. split; [exact E|]. unfold tab, get_node in *. rewrite S, C. exact H. Qed.
+
+  Lemma trans_fold_add_job cz ss : forall g, Forall (allowed g cz) ss -> trans cz g (fold_left add_job_send ss g).
+  Proof.
+    induction ss as [|s r IH]; intros g F; simpl; [apply trans_refl|].
+    inversion F as [|? ? A F']; subst.
+    eapply trans_trans; [apply trans_add_job_send; exact A|]. apply IH.
+    destruct (add_job_send_frame g s) as (S & _ & C & _).
+    eapply Forall_impl'; [|exact F']. intros x. apply allowed_ext; assumption.
+  Qed.
+
+  Lemma desired_msgs_node t nd : Forall (fun m => m_node m = n_id nd) (desired_msgs t nd).
+  Proof.
+    apply Forall_forall. intros m H. apply In_desired_msgs in H as (k & ch & vt & x & v & _ & _ & _ & ->). reflexivity.
+  Qed.
+
+  Lemma woken_step k nd : node_step (CWake k) k nd (woken nd).
+  Proof.
+    unfold node_step, woken. cbn [with_queue n_id n_queue n_children].
+    split; [reflexivity|]. split; [|split; [intros _; constructor|split; [intro N; contradiction N; reflexivity|split]]].
+    - change (sleeping (with_queue (init_smart_sleep nd) [])) with (sleeping (init_smart_sleep nd)).
+      rewrite init_sleeping. intro S. rewrite S. destruct (n_children nd); reflexivity.
+    - apply des_step_same. intros c vt.
+      change (desired (with_queue (init_smart_sleep nd) []) c vt) with (desired (init_smart_sleep nd) c vt).
+      apply init_desired.
+    - intros c ch H. exists ch. auto.
+  Qed.
+
+  Lemma handle_smartsleep_trans g k nd g2 : Inv orc g -> get_node g k = Some nd ->
+    Forall (qentry k) (n_queue nd) -> handle_smartsleep orc g nd = Ok g2 -> trans (CWake k) g g2.
+  Proof.
+    intros I G Q H. rewrite (handle_smartsleep_closed orc g k nd I G) in H. inversion H; subst g2; clear H.
+    pose proof (node_id_of g k nd I G) as ID.
+    apply (trans_trans _ _ (put_node g (woken nd))).
+    - apply (trans_put_node _ g k nd); [exact G|exact ID|apply woken_step].
+    - apply trans_fold_add_job. unfold flush_strings, desired_sets. apply Forall_app. split.
+      + eapply Forall_impl'; [|exact Q]. intros s (m0 & -> & E). exists m0. split; [reflexivity|].
+        right. left. rewrite E. reflexivity.
+      + apply Forall_forall. intros s IN. apply in_map_iff in IN as (m0 & <- & IN).
+        pose proof (desired_msgs_node (tab g) (init_smart_sleep nd)) as DN. rewrite Forall_forall in DN.
+        exists m0. split; [reflexivity|]. right. left. rewrite (DN _ IN). cbn. rewrite ID. reflexivity.
+  Qed.
+
+  Lemma handle_heartbeat_trans g m : facts g -> Inv orc g -> QInv g ->
+    htrans (CWake (m_node m)) g (handle_heartbeat_response orc g m).
+  Proof.
+    intros F I Q. unfold handle_heartbeat_response.
+    destruct (is_sensor_ok orc g (m_node m) None F I) as (g1 & b & E & I1 & C1 & K). rewrite E. cbn [bind].
+    pose proof (is_sensor_trans _ _ _ _ _ I E) as T1.
+    destruct b; cbn [negb]; [|apply htrans_ret; apply trans_mono; exact T1].
+    destruct (K eq_refl) as [-> [nd [G _]]]. rewrite G.
+    destruct (handle_smartsleep_ok orc g (m_node m) nd I G) as (g2 & E2 & I2 & C2 & nd2 & G2).
+    rewrite E2. cbn [bind]. rewrite G2. apply htrans_ret.
+    eapply trans_trans; [exact (handle_smartsleep_trans g _ nd g2 I G (Q _ _ G) E2)|].
+    eapply trans_trans; [|apply trans_alert].
+    eapply trans_put_same; [exact I2|exact G2|reflexivity..].
+  Qed.
+
+  Lemma handle_pre_sleep_trans g m : facts g -> Inv orc g -> QInv g ->
+    htrans (CWake (m_node m)) g (handle_pre_sleep orc g m).
+  Proof.
+    intros F I Q. unfold handle_pre_sleep.
+    destruct (is_sensor_ok orc g (m_node m) None F I) as (g1 & b & E & I1 & C1 & K). rewrite E. cbn [bind].
+    pose proof (is_sensor_trans _ _ _ _ _ I E) as T1.
+    destruct b; cbn [negb]; [|apply htrans_ret; apply trans_mono; exact T1].
+    destruct (K eq_refl) as [-> [nd [G _]]]. rewrite G.
+    destruct (handle_smartsleep orc g nd) as [g2|e] eqn:E2; cbn [bind]; [|discriminate].
+    apply htrans_ret. exact (handle_smartsleep_trans g _ nd g2 I G (Q _ _ G) E2).
+  Qed.
+
+  Lemma handle_discover_trans g m : Inv orc g -> htrans CNone g (handle_discover_response g m).
+  Proof.
+    intros I. unfold handle_discover_response.
+    destruct (is_sensor g (m_node m) None) as [[g1 b]|e] eqn:E; cbn [bind]; [|discriminate].
+    apply htrans_ret. exact (is_sensor_trans _ _ _ _ _ I E).
+  Qed.
+
+  (* ---- leaves of the internal / stream dispatch ---- *)
+  Definition leaf_cause (h : hfun) (m : msg) : cause :=
+    match h with HHeartbeat | HPreSleep => CWake (m_node m) | _ => CNone end.
+
+  Lemma run_leaf_trans h g m : facts g -> Inv orc g -> QInv g ->
+    htrans (leaf_cause h m) g (run_leaf orc clock h g m).
+  Proof.
+    intros F I Q. destruct h; unfold run_leaf, leaf_cause; try (intros g' rep H; discriminate H).
+    - apply respond_fw_config_trans.
+    - apply respond_fw_trans.
+    - apply handle_id_request_trans.
+    - unfold handle_config. destruct (copy m _); cbn [bind]; [|discriminate]. apply htrans_ret. apply trans_refl.
+    - unfold handle_time. destruct (copy m _); cbn [bind]; [|discriminate]. apply htrans_ret. apply trans_refl.
+    - apply node_attr_trans; [assumption..|intros; repeat split; reflexivity].
+    - apply node_attr_trans; [assumption..|intros; repeat split; reflexivity].
+    - apply node_attr_trans; [assumption..|intros; repeat split; reflexivity].
+    - apply htrans_ret. apply trans_refl.
+    - unfold handle_gateway_ready. apply htrans_ret. apply trans_alert.
+    - unfold handle_gateway_ready_20. destruct (internal_member g _); cbn [bind]; [|discriminate].
+      destruct (copy m _); cbn [bind]; [|discriminate]. apply htrans_ret. apply trans_alert.
+    - apply handle_heartbeat_trans; assumption.
+    - apply handle_discover_trans; assumption.
+    - apply node_attr_trans; [assumption..|intros; repeat split; reflexivity].
+    - apply handle_pre_sleep_trans; assumption.
+  Qed.
+
+  (* ---- the cause of a processed line ---- *)
+  Definition report_msg (t : vtab) (m : msg) : bool :=
+    match type_handler t (m_type m) with Some HSet => true | _ => false end.
+  Definition msg_cause (t : vtab) (m : msg) : cause :=
+    if wake_msg t m then CWake (m_node m)
+    else if report_msg t m then CReport (m_node m) (m_child m) (m_sub m)
+    else CNone.
+  Definition line_cause (g : gw) (l : pstr) : cause :=
+    match decode l with
+    | Some m => if gvalidate orc g m then msg_cause (tab g) m else CNone
+    | None => CNone
+    end.
+
+  Lemma leaf_cause_msg t m h :
+    (type_handler t (m_type m) = Some HInternal \/ type_handler t (m_type m) = Some HStream) ->
+    sub_handler t (m_type m) (m_sub m) = Some h ->
+    leaf_cause h m = CNone \/ leaf_cause h m = msg_cause t m.
+  Proof.
+    intros TH SH. unfold msg_cause, wake_msg, wake_ts.
+    destruct TH as [-> | ->]; rewrite SH; destruct h; cbn; auto.
+  Qed.
+
+  Lemma htrans_leaf g m h r t :
+    (type_handler t (m_type m) = Some HInternal \/ type_handler t (m_type m) = Some HStream) ->
+    sub_handler t (m_type m) (m_sub m) = Some h ->
+    htrans (leaf_cause h m) g r -> htrans (msg_cause t m) g r.
+  Proof.
+    intros TH SH H. destruct (leaf_cause_msg t m h TH SH) as [E|E]; rewrite E in H; [apply htrans_mono|]; exact H.
+  Qed.
+
+  Lemma handle_internal_trans g m : facts g -> Inv orc g -> QInv g ->
+    type_handler (tab g) (m_type m) = Some HInternal ->
+    htrans (msg_cause (tab g) m) g (handle_internal orc clock g m).
+  Proof.
+    intros F I Q TH. unfold handle_internal.
+    destruct (sub_handler (tab g) (m_type m) (m_sub m)) as [h|] eqn:SH; [|apply htrans_ret; apply trans_refl].
+    apply (htrans_leaf g m h _ (tab g)); [left; exact TH|exact SH|]. apply run_leaf_trans; assumption.
+  Qed.
+
+  Lemma handle_stream_trans g m : facts g -> Inv orc g -> QInv g ->
+    type_handler (tab g) (m_type m) = Some HStream ->
+    htrans (msg_cause (tab g) m) g (handle_stream orc clock g m).
+  Proof.
+    intros F I Q TH. unfold handle_stream.
+    destruct (is_sensor_ok orc g (m_node m) None F I) as (g1 & b & E & I1 & C1 & K). rewrite E. cbn [bind].
+    pose proof (is_sensor_trans _ _ _ _ _ I E) as T1.
+    destruct b; cbn [negb]; [|apply htrans_ret; apply trans_mono; exact T1].
+    destruct (K eq_refl) as [-> _].
+    destruct (sub_handler (tab g) (m_type m) (m_sub m)) as [h|] eqn:SH; [|apply htrans_ret; apply trans_refl].
+    destruct (run_leaf orc clock h g m) as [[g2 resp]|e] eqn:RL; cbn [bind]; [|intros ? ? H; discriminate H].
+    apply htrans_ret. eapply trans_trans; [|apply trans_alert].
+    assert (H : htrans (msg_cause (tab g) m) g (run_leaf orc clock h g m)).
+    { apply (htrans_leaf g m h _ (tab g)); [right; exact TH|exact SH|]. apply run_leaf_trans; assumption. }
+    exact (H _ _ RL).
+  Qed.
+
+  (* ---- the dispatcher ---- *)
+  Theorem logic_trans g l g' reply : cfg_ok (g_cf g) -> Inv orc g -> QInv g ->
+    logic orc clock g l = Ok (g', reply) ->
+    trans (line_cause g l) g g' /\ (forall r, reply = Some r -> allowed g (line_cause g l) r).
+  Proof.
+    intros C I Q. pose proof (facts_of_cfg g C) as F. unfold logic, line_cause.
+    destruct (decode l) as [m|] eqn:D; [|intro H; inversion H; split; [apply trans_refl|discriminate]].
+    pose proof (decoded_payload_wire_ok _ _ D) as W.
+    destruct (gvalidate orc g m) eqn:V; cbn [negb]; [|intro H; inversion H; split; [apply trans_refl|discriminate]].
+    pose proof (validated_type_range orc g m C V) as B.
+    assert (H : exists h, type_handler (tab g) (m_type m) = Some h /\ hres_ok orc g (run_handler orc clock h g m) /\
+                          htrans (msg_cause (tab g) m) g (run_handler orc clock h g m)).
+    { destruct (type_handler_cases g (m_type m) F B) as [[_ E]|[[_ E]|[[_ E]|[[_ E]|[_ E]]]]];
+        eexists; (split; [exact E|]); unfold run_handler.
+      - split; [apply handle_presentation_ok; assumption|].
+        unfold msg_cause, wake_msg, wake_ts, report_msg. rewrite E. apply handle_presentation_trans; assumption.
+      - split; [apply handle_set_ok; assumption|].
+        unfold msg_cause, wake_msg, wake_ts, report_msg. rewrite E. apply handle_set_trans; assumption.
+      - split; [apply handle_req_ok; assumption|].
+        unfold msg_cause, wake_msg, wake_ts, report_msg. rewrite E. apply handle_req_trans; assumption.
+      - split; [apply handle_internal_ok; assumption|]. apply handle_internal_trans; assumption.
+      - split; [apply handle_stream_ok; assumption|]. apply handle_stream_trans; assumption. }
+    destruct H as (h & E & (g1 & rep & E1 & I1 & C1) & HT). rewrite E, E1. cbn [bind].
+    pose proof (HT _ _ E1) as T1.
+    destruct rep as [mr|]; cbn [route_opt].
+    - destruct (route_trans g1 mr I1) as [T2 A2].
+      destruct (route g1 mr) as [g2 routed]. cbn [fst snd] in *.
+      intro H. inversion H; subst g' reply; clear H. split.
+      + eapply trans_trans; [exact T1|apply trans_mono; exact T2].
+      + intros r R. destruct routed as [m'|]; [|discriminate]. simpl in R. inversion R; subst r.
+        destruct (A2 m' eq_refl) as (-> & _ & AL).
+        apply (allowed_back _ g g1); [exact C1|exact (t_nodes _ _ _ T1)|apply allowed_mono; exact AL].
+    - intro H. inversion H; subst g' reply; clear H. split; [exact T1|discriminate].
+  Qed.
+
+  (* ---- invariants carried by nodes_step ---- *)
+  Definition IdInv (g : gw) : Prop := forall k nd, get_node g k = Some nd -> n_id nd = k.
+
+  Lemma IdInv_of_Inv g : Inv orc g -> IdInv g.
+  Proof. intros I k nd G. exact (node_id_of g k nd I G). Qed.
+
+  Lemma nodes_step_IdInv cz g g' : nodes_step cz g g' -> IdInv g -> IdInv g'.
+  Proof.
+    intros [A N] Q k nd' G'. destruct (get_node g k) as [nd|] eqn:G.
+    - destruct (A _ _ G) as (nd2 & G2 & (E & _)). rewrite G' in G2. inversion G2; subst nd2.
+      rewrite E. exact (Q _ _ G).
+    - destruct (N _ _ G G') as (E & _). exact E.
+  Qed.
+
+  Lemma nodes_step_QInv cz g g' : nodes_step cz g g' -> QInv g -> QInv g'.
+  Proof.
+    intros [A N] Q k nd' G'. destruct (get_node g k) as [nd|] eqn:G.
+    - destruct (A _ _ G) as (nd2 & G2 & (_ & _ & QQ & _)). rewrite G' in G2. inversion G2; subst nd2.
+      apply QQ. exact (Q _ _ G).
+    - destruct (N _ _ G G') as (_ & _ & QQ & _). apply QQ. constructor.
+  Qed.
+
+  (* ---- controller calls ---- *)
+  Definition desire_cause (sid cid : Z) (vt : vtarg) : cause :=
+    match vt_int vt with Some vti => CDesire sid cid vti | None => CNone end.
+
+  Lemma create_set_message_node g nid cid vt v mt a m :
+    create_set_message orc g nid cid vt v mt a = Ok m -> m_node m = nid.
+  Proof.
+    unfold create_set_message. destruct (vt_int vt); [|discriminate].
+    destruct (gvalidate orc g _); [|discriminate]. intro H. inversion H. reflexivity.
+  Qed.
+
+  Lemma set_child_value_trans g sid cid vt v mt a g' : facts g -> Inv orc g ->
+    set_child_value orc g sid cid vt v mt a = Ok g' -> trans (desire_cause sid cid vt) g g'.
+  Proof.
+    intros F I. unfold set_child_value.
+    destruct (is_sensor_ok orc g sid (Some cid) F I) as (g1 & b & E & I1 & C1 & K). rewrite E. cbn [bind].
+    pose proof (is_sensor_trans _ _ _ _ _ I E) as T1.
+    destruct b; cbn [negb]; [|intro H; inversion H; subst; apply trans_mono; exact T1].
+    destruct (K eq_refl) as [-> [nd [G _]]]. rewrite G.
+    pose proof (node_id_of g sid nd I G) as ID.
+    destruct (sleeping nd) eqn:SL.
+    - destruct (create_set_message orc g (n_id nd) cid vt v None None); cbn [bind]; [|discriminate].
+      destruct (zassoc cid (n_new nd)) as [dv|] eqn:D; [|discriminate].
+      destruct (validate_child_state orc nd cid vt v); cbn [bind]; [|discriminate].
+      unfold desire_cause. destruct (vt_int vt) as [vti|]; [|discriminate].
+      intro H. inversion H; subst g'; clear H.
+      apply (trans_put_node _ g sid nd); [exact G|exact ID|].
+      apply with_new_slot_step; [exact D|right; reflexivity].
+    - destruct (create_set_message orc g (n_id nd) cid vt v mt a) as [m0|] eqn:CM; cbn [bind]; [|discriminate].
+      intro H. inversion H; subst g'; clear H. apply trans_mono. apply trans_add_job_send.
+      exists m0. split; [reflexivity|]. right. right.
+      rewrite (create_set_message_node _ _ _ _ _ _ _ _ CM), ID, G. exact SL.
+  Qed.
+
+  Lemma update_one_trans t v g nid : IdInv g -> trans CNone g (update_one t v g nid).
+  Proof.
+    intros Q. unfold update_one. destruct (get_node g nid) as [nd|] eqn:G; [|apply trans_refl].
+    match goal with |- trans _ _ (put_node ?x _) => apply (trans_trans _ _ x) end;
+      [apply trans_fields; reflexivity|].
+    apply (trans_put_node _ _ nid nd); [exact G|exact (Q _ _ G)|apply node_step_same; reflexivity].
+  Qed.
+
+  Lemma update_fold_trans t v nids : forall g, IdInv g -> trans CNone g (fold_left (update_one t v) nids g).
+  Proof.
+    induction nids as [|nid r IH]; intros g Q; simpl; [apply trans_refl|].
+    pose proof (update_one_trans t v g nid Q) as T1.
+    eapply trans_trans; [exact T1|]. apply IH. exact (nodes_step_IdInv _ _ _ (t_nodes _ _ _ T1) Q).
+  Qed.
+
+  Lemma update_fw_trans g nids fwt fwv bin g' : Inv orc g -> update_fw g nids fwt fwv bin = Ok g' -> trans CNone g g'.
+  Proof.
+    intros I. unfold update_fw.
+    assert (R : forall x, Ok g = Ok x -> trans CNone g x) by (intros x H; inversion H; apply trans_refl).
+    destruct bin as [[|b0 br]|]; [apply R| |].
+    all: destruct (vt_int fwt) as [t|]; [|apply R]; destruct (vt_int fwv) as [v|]; [|apply R];
+         destruct (negb ((0 <=? t) && (t <=? 65535)) || negb ((0 <=? v) && (v <=? 65535))); [apply R|].
+    all: match goal with |- context [fw_lookup _ _ ?fwl] => set (FWL := fwl) end.
+    all: set (g0 := set_ota g (mkOta FWL (o_requested (g_ota g)) (o_unstarted (g_ota g)) (o_started (g_ota g))));
+         assert (T0 : trans CNone g g0) by (apply trans_fields; reflexivity);
+         destruct (fw_lookup t v FWL); [|intro H; inversion H; subst; exact T0].
+    all: intro H; inversion H; subst g'; clear H;
+         change (trans CNone g (fold_left (update_one t v) nids g0));
+         eapply trans_trans; [exact T0|]; apply update_fold_trans;
+         intros k nd G; exact (node_id_of g k nd I G).
+  Qed.
+
+  (* ---- steps of the machine ---- *)
+  Definition finish (g1 : gw) (reply : option pstr) : gw :=
+    match reply with Some r => send g1 r | None => g1 end.
+
+  Lemma trans_then_send cz g g1 r : trans cz g g1 -> allowed g cz r -> trans cz g (send g1 r).
+  Proof.
+    intros [C (d & L & F) J N] A. unfold send. destruct r as [|c r]; [constructor; [exact C|exists d; split; assumption|exact J|exact N]|].
+    constructor; [exact C| |exact J|exact N].
+    exists (d ++ [ESend (c :: r)]). split; [simpl; rewrite L, app_assoc; reflexivity|].
+    apply Forall_app. split; [exact F|]. constructor; [exact A|constructor].
+  Qed.
+
+  Theorem logic_finish_trans g l g1 reply : cfg_ok (g_cf g) -> Inv orc g -> QInv g ->
+    logic orc clock g l = Ok (g1, reply) -> trans (line_cause g l) g (finish g1 reply).
+  Proof.
+    intros C I Q E. destruct (logic_trans g l g1 reply C I Q E) as [T A].
+    destruct reply as [r|]; [|exact T]. simpl. apply trans_then_send; [exact T|]. apply A. reflexivity.
+  Qed.
+
+  Definition op_cause (g : gw) (o : op) : cause :=
+    match o with
+    | Recv l => if cf_async (g_cf g) then line_cause g l else CNone
+    | Pump => match g_jobs g with JLogic l :: _ => line_cause g l | _ => CNone end
+    | SetChild s c vt _ _ _ => desire_cause s c vt
+    | _ => CNone
+    end.
+
+  (* the job queue a step starts from: a pump iteration pops the head first *)
+  Definition jobs_base (g : gw) (o : op) : list job :=
+    match o with Pump => tl (g_jobs g) | _ => g_jobs g end.
+  (* a send that an EARLIER step queued is handed to the transport by this pump iteration *)
+  Definition queued_send (g : gw) (o : op) (s : pstr) : Prop := o = Pump /\ exists r, g_jobs g = JSend s :: r.
+  (* threaded flavour: an arriving line is queued for the pump *)
+  Definition queued_line (g : gw) (o : op) (x : job) : Prop :=
+    exists l, o = Recv l /\ cf_async (g_cf g) = false /\ x = JLogic l.
+
+  Record strans (g : gw) (o : op) (g' : gw) : Prop := mkStrans {
+    s_cf : g_cf g' = g_cf g;
+    s_log : exists d, g_log g' = g_log g ++ d /\
+              Forall (fun e => ev_allowed g (op_cause g o) e \/ exists s, e = ESend s /\ queued_send g o s) d;
+    s_jobs : exists j, g_jobs g' = jobs_base g o ++ j /\
+              Forall (fun x => job_allowed g (op_cause g o) x \/ queued_line g o x) j;
+    s_nodes : nodes_step (op_cause g o) g g' }.
+
+  Lemma strans_of_trans g o g0 g' :
+    g_cf g0 = g_cf g -> g_sensors g0 = g_sensors g -> g_log g0 = g_log g -> g_jobs g0 = jobs_base g o ->
+    trans (op_cause g o) g0 g' -> strans g o g'.
+  Proof.
+    intros C S L J [C' (d & L' & F) (j & J' & G & _) [A N]].
+    constructor; [congruence| | |].
+    - exists d. split; [congruence|]. eapply Forall_impl'; [|exact F].
+      intros [s|m t|e] H; left; simpl in *; auto. apply (allowed_ext g0 g); auto.
+    - exists j. split; [congruence|]. eapply Forall_impl'; [|exact G].
+      intros [l|s] H; left; simpl in *; auto. apply (allowed_ext g0 g); auto.
+    - unfold nodes_step, get_node in *. rewrite S in A, N. split; assumption.
+  Qed.
+
+  Theorem step_strans g o : cfg_ok (g_cf g) -> Inv orc g -> QInv g -> op_ok o -> strans g o (step orc clock g o).
+  Proof.
+    intros C I Q O. pose proof (facts_of_cfg g C) as F.
+    destruct o as [l| |s c vt v mt a|ns t v b|b]; cbn [step].
+    - unfold recv. destruct (cf_async (g_cf g)) eqn:AS.
+      + destruct (logic_total orc clock g l C I) as (g1 & r & E & _). rewrite E.
+        apply (strans_of_trans g (Recv l) g); try reflexivity.
+        unfold op_cause. rewrite AS. exact (logic_finish_trans g l g1 r C I Q E).
+      + constructor; [reflexivity| | |apply nodes_step_eq; reflexivity].
+        * exists []. rewrite app_nil_r. split; [reflexivity|constructor].
+        * exists [JLogic l]. split; [reflexivity|]. constructor; [|constructor].
+          right. exists l. auto.
+    - unfold pump. destruct (g_jobs g) as [|[l|l] r] eqn:J.
+      + apply (strans_of_trans g Pump g); try reflexivity; [simpl; rewrite J; reflexivity|apply trans_refl].
+      + set (g0 := set_jobs g r).
+        destruct (logic_total orc clock g0 l C (Inv_set_jobs orc g r I)) as (g1 & rep & E & _). rewrite E.
+        apply (strans_of_trans g Pump g0); try reflexivity; [simpl; rewrite J; reflexivity|].
+        unfold op_cause. rewrite J.
+        exact (logic_finish_trans g0 l g1 rep C (Inv_set_jobs orc g r I) Q E).
+      + constructor; [rewrite cf_send; reflexivity| | |].
+        * unfold send. destruct l as [|c0 l0].
+          -- exists []. rewrite app_nil_r. split; [reflexivity|constructor].
+          -- exists [ESend (c0 :: l0)]. split; [reflexivity|]. constructor; [|constructor].
+             right. exists (c0 :: l0). split; [reflexivity|]. split; [reflexivity|]. exists r. exact J.
+        * exists []. rewrite app_nil_r. split; [|constructor].
+          destruct (send_frame (set_jobs g r) l) as (_&_&_&JJ&_). rewrite JJ. simpl. rewrite J. reflexivity.
+        * apply nodes_step_eq. destruct (send_frame (set_jobs g r) l) as (SS&_). rewrite SS. reflexivity.
+    - apply (strans_of_trans g _ g); try reflexivity. unfold op_cause.
+      destruct (set_child_value orc g s c vt v mt a) as [g'|e] eqn:E.
+      + exact (set_child_value_trans g s c vt v mt a g' F I E).
+      + apply trans_emit_other. exact Logic.I.
+    - apply (strans_of_trans g _ g); try reflexivity. unfold op_cause.
+      destruct (update_fw g ns t v b) as [g'|e] eqn:E.
+      + exact (update_fw_trans g ns t v b g' I E).
+      + apply trans_emit_other. exact Logic.I.
+    - apply (strans_of_trans g _ g); try reflexivity. apply trans_fields; reflexivity.
+  Qed.
+
+  (* ---- every reachable state ---- *)
+  Lemma QInv_init cf : QInv (gw_init cf).
+  Proof. intros k nd H. discriminate H. Qed.
+
+  Lemma run_sleep_inv ops : forall g, cfg_ok (g_cf g) -> Inv orc g -> QInv g -> Forall op_ok ops ->
+    Inv orc (run orc clock g ops) /\ QInv (run orc clock g ops) /\ g_cf (run orc clock g ops) = g_cf g.
+  Proof.
+    induction ops as [|o ops IH]; intros g C I Q F; [auto|].
+    inversion F as [|? ? O F']; subst.
+    destruct (step_ok orc clock g o C I O) as [I1 C1].
+    pose proof (step_strans g o C I Q O) as ST.
+    pose proof (nodes_step_QInv _ _ _ (s_nodes _ _ _ ST) Q) as Q1.
+    unfold run. simpl. fold (run orc clock (step orc clock g o) ops).
+    destruct (IH (step orc clock g o)) as (I2 & Q2 & C2); try assumption; [rewrite C1; exact C|].
+    split; [exact I2|]. split; [exact Q2|congruence].
+  Qed.
+
+  Theorem reachable_sleep_inv cf ops : cfg_ok cf -> Forall op_ok ops ->
+    let g := run orc clock (gw_init cf) ops in Inv orc g /\ QInv g /\ g_cf g = cf.
+  Proof. intros C F. exact (run_sleep_inv ops (gw_init cf) C (Inv_init orc cf) (QInv_init cf) F). Qed.
+
+End Handlers.
